@@ -29,14 +29,16 @@ def run_one(m, tier, seed):
         subprocess.check_call(['rsync', '-a', '--exclude', '.git',
                                '--exclude', 'tests', '--exclude', 'docs',
                                '/repo/', tmp + '/'])
-        path = os.path.join(tmp, m['file'])
-        src = open(path).read()
+        for e in m.get('edits') or [m]:
+            path = os.path.join(tmp, e['file'])
+            src = open(path).read()
 
-        if src.count(m['old']) != 1:
-            out['error'] = 'old text occurs %d times' % src.count(m['old'])
-            return out
+            if src.count(e['old']) != 1:
+                out['error'] = 'old text occurs %d times' % \
+                    src.count(e['old'])
+                return out
 
-        open(path, 'w').write(src.replace(m['old'], m['new']))
+            open(path, 'w').write(src.replace(e['old'], e['new']))
 
         for prop in m['props']:
             env = dict(os.environ, VERIF_REPO=tmp, VERIF_JOBS=str(m.get(
